@@ -16,116 +16,176 @@ Ltac gstep H :=
 Ltac nstep H :=
   let s1 := fresh "s" in let H1 := fresh "Nn" in
   apply seq_ok in H; destruct H as (s1 & H1 & H); apply nest_guard_ok in H1; destruct H1 as [H1 ->].
+Ltac ndstep H :=
+  let s1 := fresh "s" in let H1 := fresh "Nd" in
+  apply seq_ok in H; destruct H as (s1 & H1 & H); apply nestd_guard_ok in H1; destruct H1 as [H1 ->].
 
 (* ------------------------------------------------------------------ (a) static largest product (STRICT) *)
-Lemma maxprod_eq tp nd :
-  maxprod tp nd =
+Lemma maxprodS_eq tp sup nd :
+  maxprodS tp sup nd =
   match nd with
-  | Text _ | Echo _ | Assign _ _ => 0
-  | Capture _ b | IfChanged b | Include b | Render b | Call b => maxprod_list tp b
-  | For n b | Tablerow n b | IncludeArr n b | RenderFor n b =>
-      if (n =? 0)%N then 0 else N.max (tp * n) (maxprod_list (tp * n) b)
+  | Text _ | Echo _ | Assign _ _ | SuperU => 0
+  | Capture _ b | IfChanged b | Include b => maxprodS_list tp sup b
+  | Render b | Call b | BlockD b => maxprodS_list tp false b
+  | Block b => maxprodS_list tp true b
+  | Super b => if sup then maxprodS_list tp true b else 0
+  | For n b | Tablerow n b | IncludeArr n b => if (n =? 0)%N then 0 else N.max (tp * n) (maxprodS_list (tp * n) sup b)
+  | RenderFor n b => if (n =? 0)%N then 0 else N.max (tp * n) (maxprodS_list (tp * n) false b)
   end%N.
 Proof.
-  assert (E : forall tp l, (fix mx (tp : N) (l : list node) : N :=
-               match l with [] => 0%N | x :: r => N.max (maxprod tp x) (mx tp r) end) tp l = maxprod_list tp l).
-  { intros tp0 l; induction l as [|x r IH]; simpl; [reflexivity|]. rewrite IH. reflexivity. }
+  assert (E : forall tp sup l, (fix mx (tp : N) (sup : bool) (l : list node) : N :=
+               match l with [] => 0%N | x :: r => N.max (maxprodS tp sup x) (mx tp sup r) end) tp sup l = maxprodS_list tp sup l).
+  { intros tp0 sup0 l; induction l as [|x r IH]; simpl; [reflexivity|]. rewrite IH. reflexivity. }
   destruct nd; simpl; rewrite ?E; reflexivity.
 Qed.
+
+(* is a block object with a parent block in scope? *)
+Definition supflag (f : frame) : bool := match f_sup f with SupNone => false | _ => true end.
+(* frames that differ in what they remember of the block's buffer only *)
+Definition fz (f f' : frame) : Prop :=
+  f_loops f' = f_loops f /\ f_carry f' = f_carry f /\ f_sup f' = f_sup f /\ f_tp f' = f_tp f.
+Lemma fz_refl f : fz f f.
+Proof. repeat split. Qed.
+Lemma fz_freeze f b : fz f (f_freeze f b).
+Proof. repeat split. Qed.
+Lemma fz_trans f g h : fz f g -> fz g h -> fz f h.
+Proof. intros (A1 & A2 & A3 & A4) (B1 & B2 & B3 & B4). repeat split; congruence. Qed.
+Lemma linv_fz L f f' : fz f f' -> linv L f -> linv L f'.
+Proof.
+  intros (A1 & A2 & A3 & A4) (Hb & Ht & Hs). unfold linv, sup_ok, bk in *. rewrite A1, A2, A3, A4.
+  split; [exact Hb|]. split; [exact Ht|exact Hs].
+Qed.
+Lemma supflag_fz f f' : fz f f' -> supflag f' = supflag f.
+Proof. intros (_ & _ & A3 & _). unfold supflag. rewrite A3. reflexivity. Qed.
 
 Section Static.
   Variables (v : variant) (lim : limits) (L : N).
   Hypothesis Hv : is_repaired v.
   Hypothesis HL : l_loop lim = Some L.
 
-
   Definition ran (m : M) : Prop := exists s0 s1, m s0 = LOk s1.
 
-  Lemma block_ran body f s s' : block v Strict lim body f s = LOk s' -> ran (exec_list v Strict lim body f).
+  Lemma block_ran body f s s' :
+    block v Strict lim body f s = LOk s' -> exists f', fz f f' /\ ran (exec_list v Strict lim body f').
   Proof.
     unfold block. destruct (blank_list body); intro H.
-    - apply in_null_ok in H. destruct H as (s1 & H1 & _). exists (set_buf s BNull), s1. exact H1.
-    - exists s, s'. exact H.
+    - apply in_null_ok in H. destruct H as (s1 & H1 & _). exists (f_freeze f (s_buf s)). split; [apply fz_freeze|].
+      exists (set_buf s BNull), s1. exact H1.
+    - exists f. split; [apply fz_refl|]. exists s, s'. exact H.
   Qed.
-
-  Lemma partial_ran body f s s' : partial v Strict lim body f s = LOk s' -> ran (exec_list v Strict lim body (f_ext f)).
-  Proof. unfold partial. intro H. gstep H. rewrite run_nodes_strict in H. exists s, s'. exact H. Qed.
 
   Lemma to_nat_S n : (n =? 0)%N = false -> exists m, N.to_nat n = S m.
   Proof. intro H. destruct (N.to_nat n) eqn:E; [lia|eauto]. Qed.
 
   Definition okP (nd : node) : Prop :=
-    forall f s s', linv L f -> exec v Strict lim nd f s = LOk s' -> (maxprod (f_tp f) nd <= L)%N.
+    forall f s s', linv L f -> exec v Strict lim nd f s = LOk s' -> (maxprodS (f_tp f) (supflag f) nd <= L)%N.
   Definition okQ (l : list node) : Prop :=
-    forall f, linv L f -> ran (exec_list v Strict lim l f) -> (maxprod_list (f_tp f) l <= L)%N.
+    forall f, linv L f -> ran (exec_list v Strict lim l f) -> (maxprodS_list (f_tp f) (supflag f) l <= L)%N.
+
+  Lemma use_block b : okQ b -> forall f s s' tp sup, linv L f -> f_tp f = tp -> supflag f = sup ->
+    block v Strict lim b f s = LOk s' -> (maxprodS_list tp sup b <= L)%N.
+  Proof.
+    intros IH f s s' tp sup HI <- <- H. apply block_ran in H. destruct H as (f' & Hz & Hr).
+    specialize (IH f' (linv_fz L f f' Hz HI) Hr). rewrite (supflag_fz f f' Hz) in IH.
+    destruct Hz as (_ & _ & _ & A4). rewrite A4 in IH. exact IH.
+  Qed.
+
+  Lemma use_partial b : okQ b -> forall f s s' tp sup, linv L f -> f_tp f = tp -> supflag f = sup ->
+    partial v Strict lim b f s = LOk s' -> (maxprodS_list tp sup b <= L)%N.
+  Proof.
+    intros IH f s s' tp sup HI <- <- H. unfold partial in H. gstep H. rewrite run_nodes_strict in H.
+    apply (IH (f_ext f) (linv_ext L f HI)). exists s, s'. exact H.
+  Qed.
 
   Theorem exec_maxprod : forall nd, okP nd.
   Proof.
-    apply (node_ind' okP okQ); unfold okP, okQ.
-    - intros t f s s' _ _. rewrite maxprod_eq. lia.
-    - intros x f s s' _ _. rewrite maxprod_eq. lia.
-    - intros x t f s s' _ _. rewrite maxprod_eq. lia.
-    - (* Capture *) intros x b IH f s s' HI H. rewrite maxprod_eq. rewrite exec_eq in H.
-      apply in_child_ok in H. destruct H as (s1 & H1 & _). apply block_ran in H1. auto.
-    - (* IfChanged *) intros b IH f s s' HI H. rewrite maxprod_eq. rewrite exec_eq in H.
-      apply in_child_ok in H. destruct H as (s1 & H1 & _). apply block_ran in H1. auto.
-    - (* For *) intros n b IH f s s' HI H. rewrite maxprod_eq. rewrite exec_eq in H.
+    apply (node_ind' okP okQ); unfold okP.
+    - intros t f s s' _ _. rewrite maxprodS_eq. lia.
+    - intros x f s s' _ _. rewrite maxprodS_eq. lia.
+    - intros x t f s s' _ _. rewrite maxprodS_eq. lia.
+    - (* Capture *) intros x b IH f s s' HI H. rewrite maxprodS_eq. rewrite exec_eq in H.
+      apply in_child_ok in H. destruct H as (s1 & H1 & _).
+      apply (use_block b IH (f_freeze f (s_buf s)) _ _ _ _ (linv_freeze L f _ HI) eq_refl eq_refl H1).
+    - (* IfChanged *) intros b IH f s s' HI H. rewrite maxprodS_eq. rewrite exec_eq in H.
+      apply in_child_ok in H. destruct H as (s1 & H1 & _).
+      apply (use_block b IH (f_freeze f (s_buf s)) _ _ _ _ (linv_freeze L f _ HI) eq_refl eq_refl H1).
+    - (* For *) intros n b IH f s s' HI H. rewrite maxprodS_eq. rewrite exec_eq in H.
       destruct (n =? 0)%N eqn:En; [lia|]. gstep H. gstep H.
       destruct (to_nat_S n En) as [m Em]. rewrite Em in H. apply iter_first in H. destruct H as (s1 & H).
-      apply block_ran in H. pose proof (linv_for v lim L Hv HL f n HI G) as HI'.
-      specialize (IH (f_for f n) HI' H). destruct HI' as [_ Ht]. simpl in *. lia.
-    - (* Tablerow *) intros n b IH f s s' HI H. rewrite maxprod_eq. rewrite exec_eq in H.
+      pose proof (linv_for v lim L Hv HL f n HI En G) as HI'.
+      pose proof (use_block b IH _ _ _ (f_tp f * n)%N (supflag f) HI' eq_refl eq_refl H) as IHb.
+      destruct HI' as (_ & Ht & _). cbn [f_tp f_for] in Ht. lia.
+    - (* Tablerow *) intros n b IH f s s' HI H. rewrite maxprodS_eq. rewrite exec_eq in H.
       destruct (n =? 0)%N eqn:En; [lia|]. gstep H. step H. gstep H. step H.
       destruct (to_nat_S n En) as [m Em]. rewrite Em in H1. apply iter_first in H1. destruct H1 as (s3 & H1).
-      step H1. step H1. apply block_ran in H3.
-      pose proof (linv_scale v lim L Hv HL (f_ext f) n (linv_ext L f HI) G) as HI'.
-      specialize (IH _ HI' H3). destruct HI' as [_ Ht]. simpl in *. lia.
-    - (* Include *) intros b IH f s s' HI H. rewrite maxprod_eq. rewrite exec_eq in H.
-      gstep H. nstep H. gstep H. apply partial_ran in H.
-      apply (IH (f_ext (f_ext f))); auto using (linv_ext L).
-    - (* IncludeArr *) intros n b IH f s s' HI H. rewrite maxprod_eq. rewrite exec_eq in H.
+      step H1. step H1.
+      pose proof (linv_scale v lim L Hv HL (f_ext f) n (linv_ext L f HI) En G) as HI'.
+      pose proof (use_block b IH _ _ _ (f_tp f * n)%N (supflag f) HI' eq_refl eq_refl H3) as IHb.
+      destruct HI' as (_ & Ht & _). cbn [f_tp f_scale f_ext] in Ht. lia.
+    - (* Include *) intros b IH f s s' HI H. rewrite maxprodS_eq. rewrite exec_eq in H.
+      gstep H. nstep H. gstep H. apply (use_partial b IH (f_ext f) _ _ _ _ (linv_ext L f HI) eq_refl eq_refl H).
+    - (* IncludeArr *) intros n b IH f s s' HI H. rewrite maxprodS_eq. rewrite exec_eq in H.
       destruct (n =? 0)%N eqn:En; [lia|]. gstep H. nstep H. gstep H. gstep H.
       destruct (to_nat_S n En) as [m Em]. rewrite Em in H. apply iter_first in H. destruct H as (s1 & H).
-      apply partial_ran in H.
-      pose proof (linv_scale v lim L Hv HL (f_ext f) n (linv_ext L f HI) G1) as HI'.
-      specialize (IH _ (linv_ext L _ HI') H). destruct HI' as [_ Ht]. simpl in *. lia.
-    - (* Render *) intros b IH f s s' HI H. rewrite maxprod_eq. rewrite exec_eq in H.
-      nstep H. gstep H. apply in_ctx_ok in H. destruct H as (s1 & H & _). apply partial_ran in H.
-      apply (IH (f_ext (f_copy f (sum_sizes (s_locals s))))); auto using (linv_ext L), (linv_copy L).
-    - (* RenderFor *) intros n b IH f s s' HI H. rewrite maxprod_eq. rewrite exec_eq in H.
-      destruct (n =? 0)%N eqn:En; [lia|]. nstep H. gstep H. cbv zeta in H. gstep H.
+      pose proof (linv_scale v lim L Hv HL (f_ext f) n (linv_ext L f HI) En G1) as HI'.
+      pose proof (use_partial b IH _ _ _ (f_tp f * n)%N (supflag f) HI' eq_refl eq_refl H) as IHb.
+      destruct HI' as (_ & Ht & _). cbn [f_tp f_scale f_ext] in Ht. lia.
+    - (* Render *) intros b IH f s s' HI H. rewrite maxprodS_eq. rewrite exec_eq in H.
+      nstep H. gstep H. apply in_ctx_ok in H. destruct H as (s1 & H & _).
+      apply (use_partial b IH (f_copy f) _ _ _ _ (linv_copy L f HI) eq_refl eq_refl H).
+    - (* RenderFor *) intros n b IH f s s' HI H. rewrite maxprodS_eq. rewrite exec_eq in H.
+      destruct (n =? 0)%N eqn:En; [lia|]. nstep H. gstep H. gstep H.
       destruct (to_nat_S n En) as [m Em]. rewrite Em in H.
-      assert (Hr : ran (exec_list v Strict lim b (f_ext (f_scale v (f_copy f (sum_sizes (s_locals s))) n)))).
+      pose proof (linv_scale v lim L Hv HL _ n (linv_copy L f HI) En G0) as HI'.
+      assert (IHb : (maxprodS_list (f_tp f * n) false b <= L)%N).
       { destruct (v_item v).
         - apply iter_first in H. destruct H as (s3 & H). apply in_ctx_ok in H. destruct H as (s4 & H & _).
-          apply partial_ran in H. exact H.
+          apply (use_partial b IH _ _ _ _ _ HI' eq_refl eq_refl H).
         - apply in_ctx_ok in H. destruct H as (s1 & H & _). apply iter_first in H. destruct H as (s3 & H).
-          apply partial_ran in H. exact H. }
-      clear H. rename Hr into H.
-      pose proof (linv_scale v lim L Hv HL _ n (linv_copy L f (sum_sizes (s_locals s)) HI) G0) as HI'.
-      specialize (IH _ (linv_ext L _ HI') H). destruct HI' as [_ Ht]. simpl in *. lia.
-    - (* Call *) intros b IH f s s' HI H. rewrite maxprod_eq. rewrite exec_eq in H.
-      gstep H. apply in_ctx_ok in H. destruct H as (s1 & H & _). apply block_ran in H.
-      apply (IH (f_copy f (sum_sizes (s_locals s)))); auto using (linv_copy L).
+          apply (use_partial b IH _ _ _ _ _ HI' eq_refl eq_refl H). }
+      destruct HI' as (_ & Ht & _). cbn [f_tp f_scale f_copy] in Ht. lia.
+    - (* Call *) intros b IH f s s' HI H. rewrite maxprodS_eq. rewrite exec_eq in H.
+      gstep H. apply in_ctx_ok in H. destruct H as (s1 & H & _).
+      apply (use_block b IH (f_call f) _ _ _ _ (linv_call L f HI) eq_refl eq_refl H).
+    - (* Block *) intros b IH f s s' HI H. rewrite maxprodS_eq. rewrite exec_eq in H.
+      gstep H. gstep H. apply in_blk_ok in H. destruct H as (s1 & H & _).
+      apply (use_block b IH (f_blk f) _ _ _ _ (linv_blk L f HI) eq_refl eq_refl H).
+    - (* BlockD *) intros b IH f s s' HI H. rewrite maxprodS_eq. rewrite exec_eq in H.
+      gstep H. gstep H.
+      apply (use_block b IH (f_sup_set (f_ext f) SupNone) _ _ _ _ (linv_sup_set L _ _ (linv_ext L f HI) (or_introl eq_refl)) eq_refl eq_refl H).
+    - (* Super *) intros b IH f s s' HI H. rewrite maxprodS_eq. rewrite exec_eq in H. unfold supflag.
+      destruct (f_sup f) as [| |bf] eqn:Es; [lia| |].
+      + unfold in_sup in H. apply in_childb_ok in H. destruct H as (s1 & H & _). gstep H.
+        apply (use_block b IH (f_sup_set (f_ext f) SupHere) _ _ _ _ (linv_sup_set L _ _ (linv_ext L f HI) (or_intror eq_refl)) eq_refl eq_refl H).
+      + unfold in_sup in H. apply in_childb_ok in H. destruct H as (s1 & H & _).
+        apply in_base_ok in H. destruct H as (cb & s2 & _ & H & _). gstep H.
+        apply (use_block b IH (f_ext (f_base v bf f)) _ _ _ _ (linv_ext L _ (linv_base v L Hv f bf HI Es)) eq_refl eq_refl H).
+    - (* SuperU *) intros f s s' _ _. rewrite maxprodS_eq. lia.
     - (* nil *) intros f _ _. simpl. lia.
     - (* cons *) intros x r IHx IHr f HI (s0 & s1 & H). rewrite exec_list_cons in H. step H.
       simpl. specialize (IHx f s0 s HI H0). specialize (IHr f HI (ex_intro _ s (ex_intro _ s1 H))). lia.
   Qed.
 
-  Theorem exec_list_maxprod l f : linv L f -> ran (exec_list v Strict lim l f) -> (maxprod_list (f_tp f) l <= L)%N.
+  Lemma exec_list_maxprod : forall l, okQ l.
   Proof.
-    revert f. induction l as [|x r IH]; intros f HI (s0 & s1 & H); simpl; [lia|].
+    induction l as [|x r IH]; intros f HI (s0 & s1 & H); simpl; [lia|].
     rewrite exec_list_cons in H. step H.
     pose proof (exec_maxprod x f s0 s HI H0). specialize (IH f HI (ex_intro _ s (ex_intro _ s1 H))). lia.
   Qed.
 
+  Lemma linv_frame0 : (1 <= L)%N -> linv L frame0.
+  Proof. intro H1. split; [reflexivity|]. split; [simpl; lia|exact Logic.I]. Qed.
+
   (* a completed render has no reached nest whose lengths multiply to more than the limit *)
-  Theorem run_maxprod main sizes s :
-    (1 <= L)%N -> run_prog v Strict lim main sizes = LOk s -> (maxprod_list 1 main <= L)%N.
+  Theorem run_maxprod chain main glob sizes s :
+    (1 <= L)%N -> run_prog v Strict lim chain main glob sizes = LOk s -> (maxprod_list 1 main <= L)%N.
   Proof.
-    intros H1 H. unfold run_prog in H. destruct (nest_guard Strict lim main (st0 sizes)) as [s1|e s1|]; try discriminate.
-    apply partial_ran in H. apply (exec_list_maxprod main (f_ext frame0)); [|exact H].
-    split; [reflexivity|exact H1].
+    intros H1 H. unfold run_prog in H. destruct chain as [|d0 loaded].
+    - destruct (nest_guard Strict lim main (st0 glob sizes)) as [s1|e s1|]; try discriminate.
+      apply (use_partial main (exec_list_maxprod main) frame0 _ _ _ _ (linv_frame0 H1) eq_refl eq_refl H).
+    - destruct (nestd_guard Strict (d0 >? l_nest lim) (st0 glob sizes)) as [s1|e s1|]; try discriminate.
+      gstep H. rewrite handle_out_strict in H. ndstep H.
+      apply (use_partial main (exec_list_maxprod main) (f_ext frame0) _ _ _ _ (linv_ext L _ (linv_frame0 H1)) eq_refl eq_refl H).
   Qed.
 End Static.
 
@@ -199,17 +259,42 @@ Section Sim.
     - rewrite H. reflexivity.
   Qed.
 
-  Lemma le_in_child m m' k k' : le_run m m' -> (forall val, le_run (k val) (k' val)) -> le_run (in_child m k) (in_child m' k').
+  Lemma le_in_childb_at cb m m' k k' s : le_run m m' -> (forall val, le_run (k val) (k' val)) ->
+    match in_childb cb m k s with
+    | LOk s' => in_childb cb m' k' s = LOk s'
+    | LErr e s' => in_childb cb m' k' s = LErr e s' \/ blame a b e
+    | LFuel => in_childb cb m' k' s = LFuel
+    end.
   Proof.
-    intros H Hk s. unfold in_child. specialize (H (set_buf s (child_of (s_buf s)))). destruct (m _) as [s1|e s1|].
+    intros H Hk. unfold in_childb. specialize (H (set_buf s cb)). destruct (m _) as [s1|e s1|].
     - rewrite H. apply Hk.
     - destruct H as [H|H]; [rewrite H; left; reflexivity|right; exact H].
     - rewrite H. reflexivity.
   Qed.
 
+  Lemma le_in_child m m' k k' : le_run m m' -> (forall val, le_run (k val) (k' val)) -> le_run (in_child m k) (in_child m' k').
+  Proof. intros H Hk s. unfold in_child. apply le_in_childb_at; assumption. Qed.
+
   Lemma le_in_ctx m m' : le_run m m' -> le_run (in_ctx m) (in_ctx m').
   Proof.
-    intros H s. unfold in_ctx. specialize (H (set_mut s [] [])). destruct (m _) as [s1|e s1|].
+    intros H s. unfold in_ctx. specialize (H (set_cx s (cx_copy (s_cx s)))). destruct (m _) as [s1|e s1|].
+    - rewrite H. reflexivity.
+    - destruct H as [H|H]; [rewrite H; left; reflexivity|right; exact H].
+    - rewrite H. reflexivity.
+  Qed.
+
+  Lemma le_in_blk m m' : le_run m m' -> le_run (in_blk m) (in_blk m').
+  Proof.
+    intros H s. unfold in_blk. specialize (H (set_cx s (cx_blk (s_cx s)))). destruct (m _) as [s1|e s1|].
+    - rewrite H. destruct (leave_blk s1); reflexivity.
+    - destruct H as [H|H]; [rewrite H; left; reflexivity|right; exact H].
+    - rewrite H. reflexivity.
+  Qed.
+
+  Lemma le_in_base m m' : le_run m m' -> le_run (in_base v m) (in_base v m').
+  Proof.
+    intros H s. unfold in_base. destruct (cx_base v (s_cx s)) as [cb|]; [|reflexivity].
+    specialize (H (set_cx s cb)). destruct (m _) as [s1|e s1|].
     - rewrite H. reflexivity.
     - destruct H as [H|H]; [rewrite H; left; reflexivity|right; exact H].
     - rewrite H. reflexivity.
@@ -230,7 +315,10 @@ Section Sim.
     - reflexivity.
   Qed.
 
-  Lemma le_assign f x val : le_run (m_assign v a f x val) (m_assign v b f x val).
+  Lemma le_in_sup f m m' : le_run m m' -> le_run (in_sup a f m) (in_sup b f m').
+  Proof. intros H s. unfold in_sup. apply le_in_childb_at; [exact H|intro val; apply le_write]. Qed.
+
+  Lemma le_assign x val : le_run (m_assign v a x val) (m_assign v b x val).
   Proof.
     intro s. unfold m_assign. destruct (s_sizes s) as [|z rest]; [reflexivity|].
     rewrite !(ns_limit_repaired v _ Hv).
@@ -269,17 +357,36 @@ Section Sim.
     apply le_guard; [lia|]. intros H1 H2. simpl. lia.
   Qed.
 
+  Lemma le_nestd_guard d d' : (d' = true -> d = true) -> (d = true -> d' = false -> l_nest a <> l_nest b) ->
+    le_run (nestd_guard Strict d) (nestd_guard Strict d').
+  Proof.
+    intros Hm Hb s. unfold nestd_guard. simpl. destruct d, d'; simpl; auto. specialize (Hm eq_refl). discriminate.
+  Qed.
+
   Lemma le_nest_guard body : le_run (nest_guard Strict a body) (nest_guard Strict b body).
   Proof.
-    intro s. unfold nest_guard, nest_exceeded. destruct Hle as (_ & _ & _ & _ & Hn). simpl.
-    destruct (_ >? l_nest a) eqn:E1, (_ >? l_nest b) eqn:E2; simpl; auto; try lia; right; lia.
+    unfold nest_guard, nest_exceeded. destruct Hle as (_ & _ & _ & _ & Hn). apply le_nestd_guard; lia.
+  Qed.
+
+  Lemma le_chain_guard loaded : le_run (nestd_guard Strict (chain_too_deep a loaded)) (nestd_guard Strict (chain_too_deep b loaded)).
+  Proof.
+    destruct Hle as (_ & _ & _ & _ & Hn).
+    assert (Hmono : chain_too_deep b loaded = true -> chain_too_deep a loaded = true).
+    { unfold chain_too_deep. rewrite !existsb_exists. intros (d & Hi & Hd). exists d. split; [exact Hi|lia]. }
+    apply le_nestd_guard; [exact Hmono|].
+    intros H1 H2 Heq. unfold chain_too_deep in *. rewrite Heq in H1. congruence.
   Qed.
 
   Definition simP (nd : node) : Prop := forall f, le_run (exec v Strict a nd f) (exec v Strict b nd f).
   Definition simQ (l : list node) : Prop := forall f, le_run (exec_list v Strict a l f) (exec_list v Strict b l f).
 
   Lemma sim_block body : simQ body -> forall f, le_run (block v Strict a body f) (block v Strict b body f).
-  Proof. intros H f. unfold block. destruct (blank_list body); [apply le_in_null|]; apply H. Qed.
+  Proof.
+    intros H f. unfold block. destruct (blank_list body); [|apply H].
+    apply (le_fun (fun s0 => in_null (exec_list v Strict a body (f_freeze f (s_buf s0))))
+                  (fun s0 => in_null (exec_list v Strict b body (f_freeze f (s_buf s0))))).
+    intro s0. apply le_in_null. apply H.
+  Qed.
 
   Lemma sim_partial body : simQ body -> forall f, le_run (partial v Strict a body f) (partial v Strict b body f).
   Proof.
@@ -291,11 +398,17 @@ Section Sim.
   Proof.
     apply (node_ind' simP simQ); unfold simP.
     - intros t f. rewrite !exec_eq. apply le_seq; [intro s; reflexivity|apply le_write].
-    - intros x f. rewrite !exec_eq. apply (le_fun (fun s0 => m_write a (lget x (s_locals s0))) (fun s0 => m_write b (lget x (s_locals s0)))).
+    - intros x f. rewrite !exec_eq. apply (le_fun (fun s0 => m_write a (lookup x s0)) (fun s0 => m_write b (lookup x s0))).
       intro s0. apply le_write.
     - intros x t f. rewrite !exec_eq. apply le_assign.
-    - intros x body IH f. rewrite !exec_eq. apply le_in_child; [apply sim_block; exact IH|intro val; apply le_assign].
-    - intros body IH f. rewrite !exec_eq. apply le_in_child; [apply sim_block; exact IH|intro val; apply le_ifchanged].
+    - intros x body IH f. rewrite !exec_eq.
+      apply (le_fun (fun s0 => in_child (block v Strict a body (f_freeze f (s_buf s0))) (fun val => m_assign v a x val))
+                    (fun s0 => in_child (block v Strict b body (f_freeze f (s_buf s0))) (fun val => m_assign v b x val))).
+      intro s0. apply le_in_child; [apply sim_block; exact IH|intro val; apply le_assign].
+    - intros body IH f. rewrite !exec_eq.
+      apply (le_fun (fun s0 => in_child (block v Strict a body (f_freeze f (s_buf s0))) (m_ifchanged a))
+                    (fun s0 => in_child (block v Strict b body (f_freeze f (s_buf s0))) (m_ifchanged b))).
+      intro s0. apply le_in_child; [apply sim_block; exact IH|intro val; apply le_ifchanged].
     - intros n body IH f. rewrite !exec_eq. destruct (n =? 0)%N; [apply le_ret|].
       apply le_seq; [apply le_loop_guard|]. apply le_seq; [apply le_depth_guard|].
       apply le_iter. intro k. apply sim_block; exact IH.
@@ -311,27 +424,23 @@ Section Sim.
       apply le_seq; [apply le_loop_guard|]. apply le_iter. intro k. apply sim_partial; exact IH.
     - intros body IH f. rewrite !exec_eq.
       apply le_seq; [apply le_nest_guard|]. apply le_seq; [apply le_copy_guard|].
-      apply (le_fun (fun s0 => in_ctx (partial v Strict a body (f_copy f (sum_sizes (s_locals s0)))))
-                    (fun s0 => in_ctx (partial v Strict b body (f_copy f (sum_sizes (s_locals s0)))))).
-      intro s0. apply le_in_ctx. apply sim_partial; exact IH.
+      apply le_in_ctx. apply sim_partial; exact IH.
     - intros n body IH f. rewrite !exec_eq.
-      apply le_seq; [apply le_nest_guard|]. apply le_seq; [apply le_copy_guard|]. cbv zeta.
+      apply le_seq; [apply le_nest_guard|]. apply le_seq; [apply le_copy_guard|]. apply le_seq; [apply le_loop_guard|].
       destruct (v_item v).
-      + apply (le_fun (fun s0 => seq (guard (loop_exceeded v a (f_copy f (sum_sizes (s_locals s0))) n) XLoop)
-                                     (iter 1 (N.to_nat n) (fun _ => in_ctx (partial v Strict a body (f_scale v (f_copy f (sum_sizes (s_locals s0))) n)))))
-                      (fun s0 => seq (guard (loop_exceeded v b (f_copy f (sum_sizes (s_locals s0))) n) XLoop)
-                                     (iter 1 (N.to_nat n) (fun _ => in_ctx (partial v Strict b body (f_scale v (f_copy f (sum_sizes (s_locals s0))) n)))))).
-        intro s0. apply le_seq; [apply le_loop_guard|]. apply le_iter. intro k. apply le_in_ctx. apply sim_partial; exact IH.
-      + apply (le_fun (fun s0 => seq (guard (loop_exceeded v a (f_copy f (sum_sizes (s_locals s0))) n) XLoop)
-                                     (in_ctx (iter 1 (N.to_nat n) (fun _ => partial v Strict a body (f_scale v (f_copy f (sum_sizes (s_locals s0))) n)))))
-                      (fun s0 => seq (guard (loop_exceeded v b (f_copy f (sum_sizes (s_locals s0))) n) XLoop)
-                                     (in_ctx (iter 1 (N.to_nat n) (fun _ => partial v Strict b body (f_scale v (f_copy f (sum_sizes (s_locals s0))) n)))))).
-        intro s0. apply le_seq; [apply le_loop_guard|]. apply le_in_ctx. apply le_iter. intro k. apply sim_partial; exact IH.
+      + apply le_iter. intro k. apply le_in_ctx. apply sim_partial; exact IH.
+      + apply le_in_ctx. apply le_iter. intro k. apply sim_partial; exact IH.
     - intros body IH f. rewrite !exec_eq.
-      apply le_seq; [apply le_copy_guard|].
-      apply (le_fun (fun s0 => in_ctx (block v Strict a body (f_copy f (sum_sizes (s_locals s0)))))
-                    (fun s0 => in_ctx (block v Strict b body (f_copy f (sum_sizes (s_locals s0)))))).
-      intro s0. apply le_in_ctx. apply sim_block; exact IH.
+      apply le_seq; [apply le_copy_guard|]. apply le_in_ctx. apply sim_block; exact IH.
+    - (* Block *) intros body IH f. rewrite !exec_eq.
+      apply le_seq; [apply le_guard_same|]. apply le_seq; [apply le_copy_guard|]. apply le_in_blk. apply sim_block; exact IH.
+    - (* BlockD *) intros body IH f. rewrite !exec_eq.
+      apply le_seq; [apply le_guard_same|]. apply le_seq; [apply le_depth_guard|]. apply sim_block; exact IH.
+    - (* Super *) intros body IH f. rewrite !exec_eq. destruct (f_sup f) as [| |bf].
+      + apply le_ret.
+      + apply le_in_sup. apply le_seq; [apply le_depth_guard|]. apply sim_block; exact IH.
+      + apply le_in_sup. apply le_in_base. apply le_seq; [apply le_depth_guard|]. apply sim_block; exact IH.
+    - (* SuperU *) intro f. rewrite !exec_eq. apply le_ret.
     - intro f. apply le_ret.
     - intros x r IHx IHr f. rewrite !exec_list_cons. apply le_seq; [apply IHx|apply IHr].
   Qed.
@@ -342,20 +451,31 @@ Section Sim.
     rewrite !exec_list_cons. apply le_seq; [apply sim_exec|apply IH].
   Qed.
 
-  (* whole render, including the parse-time nesting check *)
-  Theorem sim_run main sizes :
-    match run_prog v Strict a main sizes with
-    | LOk s => run_prog v Strict b main sizes = LOk s
-    | LErr e s => run_prog v Strict b main sizes = LErr e s \/ blame a b e
-    | LFuel => run_prog v Strict b main sizes = LFuel
+  Lemma le_handle_out m m' : le_run m m' -> le_run (handle_out Strict m) (handle_out Strict m').
+  Proof. intros H s. rewrite !handle_out_strict. apply H. Qed.
+
+  (* whole render, including the parse-time nesting checks *)
+  Theorem sim_run chain main glob sizes :
+    match run_prog v Strict a chain main glob sizes with
+    | LOk s => run_prog v Strict b chain main glob sizes = LOk s
+    | LErr e s => run_prog v Strict b chain main glob sizes = LErr e s \/ blame a b e
+    | LFuel => run_prog v Strict b chain main glob sizes = LFuel
     end.
   Proof.
-    unfold run_prog.
-    pose proof (le_nest_guard main (st0 sizes)) as Hg.
-    destruct (nest_guard Strict a main (st0 sizes)) as [s1|e s1|].
-    - rewrite Hg. apply (sim_partial main (sim_exec_list main) frame0 s1).
-    - destruct Hg as [Hg|Hg]; [rewrite Hg; left; reflexivity|right; exact Hg].
-    - rewrite Hg. reflexivity.
+    unfold run_prog. destruct chain as [|d0 loaded].
+    - pose proof (le_nest_guard main (st0 glob sizes)) as Hg.
+      destruct (nest_guard Strict a main (st0 glob sizes)) as [s1|e s1|].
+      + rewrite Hg. apply (sim_partial main (sim_exec_list main) frame0 s1).
+      + destruct Hg as [Hg|Hg]; [rewrite Hg; left; reflexivity|right; exact Hg].
+      + rewrite Hg. reflexivity.
+    - assert (Hg : le_run (nestd_guard Strict (d0 >? l_nest a)) (nestd_guard Strict (d0 >? l_nest b))).
+      { destruct Hle as (_ & _ & _ & _ & Hn). apply le_nestd_guard; lia. }
+      specialize (Hg (st0 glob sizes)).
+      destruct (nestd_guard Strict (d0 >? l_nest a) (st0 glob sizes)) as [s1|e s1|].
+      + rewrite Hg. clear Hg. revert s1. apply le_seq; [apply le_depth_guard|]. apply le_handle_out.
+        apply le_seq; [apply le_chain_guard|]. apply sim_partial. apply sim_exec_list.
+      + destruct Hg as [Hg|Hg]; [rewrite Hg; left; reflexivity|right; exact Hg].
+      + rewrite Hg. reflexivity.
   Qed.
 End Sim.
 
@@ -387,35 +507,35 @@ Section Consequences.
   Hypothesis Hv : is_repaired v.
 
 (* monotone: success carries over, with the identical final state (hence output), to any pointwise larger limits *)
-Theorem run_monotone a b main sizes s :
-  lim_le a b -> run_prog v Strict a main sizes = LOk s -> run_prog v Strict b main sizes = LOk s.
-Proof. intros Hle H. pose proof (sim_run v a b Hv Hle main sizes) as S. rewrite H in S. exact S. Qed.
+Theorem run_monotone a b chain main glob sizes s :
+  lim_le a b -> run_prog v Strict a chain main glob sizes = LOk s -> run_prog v Strict b chain main glob sizes = LOk s.
+Proof. intros Hle H. pose proof (sim_run v a b Hv Hle chain main glob sizes) as S. rewrite H in S. exact S. Qed.
 
 (* abort only: ANY two configurations under which the render completes give the same final state *)
-Theorem run_abort_only a b main sizes s s' :
-  run_prog v Strict a main sizes = LOk s -> run_prog v Strict b main sizes = LOk s' -> s = s'.
+Theorem run_abort_only a b chain main glob sizes s s' :
+  run_prog v Strict a chain main glob sizes = LOk s -> run_prog v Strict b chain main glob sizes = LOk s' -> s = s'.
 Proof.
   intros Ha Hb.
-  apply (run_monotone a (lim_join a b) main sizes s (lim_le_join_l a b)) in Ha.
-  apply (run_monotone b (lim_join a b) main sizes s' (lim_le_join_r a b)) in Hb.
+  apply (run_monotone a (lim_join a b) chain main glob sizes s (lim_le_join_l a b)) in Ha.
+  apply (run_monotone b (lim_join a b) chain main glob sizes s' (lim_le_join_r a b)) in Hb.
   congruence.
 Qed.
 
 (* an error under limits a, when the render completes under limits b, is a resource-limit class *)
-Theorem run_error_class a b main sizes e se s :
-  run_prog v Strict a main sizes = LErr e se -> run_prog v Strict b main sizes = LOk s -> is_limit e = true.
+Theorem run_error_class a b chain main glob sizes e se s :
+  run_prog v Strict a chain main glob sizes = LErr e se -> run_prog v Strict b chain main glob sizes = LOk s -> is_limit e = true.
 Proof.
   intros Ha Hb.
-  apply (run_monotone b (lim_join a b) main sizes s (lim_le_join_r a b)) in Hb.
-  pose proof (sim_run v a (lim_join a b) Hv (lim_le_join_l a b) main sizes) as S. rewrite Ha in S.
+  apply (run_monotone b (lim_join a b) chain main glob sizes s (lim_le_join_r a b)) in Hb.
+  pose proof (sim_run v a (lim_join a b) Hv (lim_le_join_l a b) chain main glob sizes) as S. rewrite Ha in S.
   destruct S as [S|S]; [congruence|]. eapply blame_is_limit; exact S.
 Qed.
 
 (* ... and, for comparable limits, it is the class of a limit that was actually made larger *)
-Theorem run_error_blame a b main sizes e se s :
-  lim_le a b -> run_prog v Strict a main sizes = LErr e se -> run_prog v Strict b main sizes = LOk s -> blame a b e.
+Theorem run_error_blame a b chain main glob sizes e se s :
+  lim_le a b -> run_prog v Strict a chain main glob sizes = LErr e se -> run_prog v Strict b chain main glob sizes = LOk s -> blame a b e.
 Proof.
-  intros Hle Ha Hb. pose proof (sim_run v a b Hv Hle main sizes) as S. rewrite Ha in S.
+  intros Hle Ha Hb. pose proof (sim_run v a b Hv Hle chain main glob sizes) as S. rewrite Ha in S.
   destruct S as [S|S]; [congruence|exact S].
 Qed.
 
@@ -431,33 +551,33 @@ Proof. unfold lim_le, with_out, opt_le; simpl. destruct (l_loop a), (l_out a), (
 
 (* C06 raises: if, the loop limit apart, the render completes, and some reached nest multiplies to more than L,
    the render under the loop limit L raises LoopIterationLimitError *)
-Theorem run_loop_raises a L main sizes s :
+Theorem run_loop_raises a L chain main glob sizes s :
   l_loop a = Some L -> (1 <= L)%N ->
-  run_prog v Strict (with_loop a None) main sizes = LOk s ->
+  run_prog v Strict (with_loop a None) chain main glob sizes = LOk s ->
   (L < maxprod_list 1 main)%N ->
-  exists se, run_prog v Strict a main sizes = LErr XLoop se.
+  exists se, run_prog v Strict a chain main glob sizes = LErr XLoop se.
 Proof.
   intros HL H1 Hu Hgt.
-  pose proof (sim_run v a (with_loop a None) Hv (lim_le_with_loop a) main sizes) as S.
-  destruct (run_prog v Strict a main sizes) as [s'|e se|] eqn:E.
-  - exfalso. apply (run_maxprod v a L Hv HL main sizes s' H1) in E. lia.
+  pose proof (sim_run v a (with_loop a None) Hv (lim_le_with_loop a) chain main glob sizes) as S.
+  destruct (run_prog v Strict a chain main glob sizes) as [s'|e se|] eqn:E.
+  - exfalso. apply (run_maxprod v a L Hv HL chain main glob sizes s' H1) in E. lia.
   - destruct S as [S|S]; [congruence|]. exists se. destruct e; simpl in S; try reflexivity; try (exfalso; apply S; reflexivity); try destruct S.
   - congruence.
 Qed.
 
 (* C07 raises: if, the output limit apart, the render completes with more than L bytes, the render under the
    output limit L raises OutputStreamLimitError *)
-Theorem run_out_raises a L main sizes s :
+Theorem run_out_raises a L chain main glob sizes s :
   l_out a = Some L -> 0 <= L ->
-  run_prog v Strict (with_out a None) main sizes = LOk s ->
+  run_prog v Strict (with_out a None) chain main glob sizes = LOk s ->
   L < utf8_bytes (buf_text (s_buf s)) ->
-  exists se, run_prog v Strict a main sizes = LErr XOutput se.
+  exists se, run_prog v Strict a chain main glob sizes = LErr XOutput se.
 Proof.
   intros HL H0 Hu Hgt.
-  pose proof (sim_run v a (with_out a None) Hv (lim_le_with_out a) main sizes) as S.
-  destruct (run_prog v Strict a main sizes) as [s'|e se|] eqn:E.
+  pose proof (sim_run v a (with_out a None) Hv (lim_le_with_out a) chain main glob sizes) as S.
+  destruct (run_prog v Strict a chain main glob sizes) as [s'|e se|] eqn:E.
   - assert (s' = s) by congruence. subst s'.
-    exfalso. pose proof (run_out_bound v Strict a main sizes s L HL H0 E). lia.
+    exfalso. pose proof (run_out_bound v Strict a chain main glob sizes s L HL H0 E). lia.
   - destruct S as [S|S]; [congruence|]. exists se. destruct e; simpl in S; try reflexivity; try (exfalso; apply S; reflexivity); try destruct S.
   - congruence.
 Qed.
@@ -480,18 +600,30 @@ Section NoFalseAlarm.
   Proof. intros Hb. induction n as [|n IH]; intro k; simpl; [intro s; reflexivity|]. apply same_seq; auto. Qed.
   Lemma same_in_null m m' : same m m' -> same (in_null m) (in_null m').
   Proof. intros H s. unfold in_null. rewrite H. reflexivity. Qed.
+  Lemma same_in_childb_at cb m m' k s : same m m' -> in_childb cb m k s = in_childb cb m' k s.
+  Proof. intros H. unfold in_childb. rewrite H. reflexivity. Qed.
   Lemma same_in_child m m' k : same m m' -> same (in_child m k) (in_child m' k).
-  Proof. intros H s. unfold in_child. rewrite H. reflexivity. Qed.
+  Proof. intros H s. unfold in_child. apply same_in_childb_at. exact H. Qed.
   Lemma same_in_ctx m m' : same m m' -> same (in_ctx m) (in_ctx m').
   Proof. intros H s. unfold in_ctx. rewrite H. reflexivity. Qed.
+  Lemma same_in_blk m m' : same m m' -> same (in_blk m) (in_blk m').
+  Proof. intros H s. unfold in_blk. rewrite H. reflexivity. Qed.
+  Lemma same_in_base m m' : same m m' -> same (in_base v m) (in_base v m').
+  Proof. intros H s. unfold in_base. destruct (cx_base v (s_cx s)); [|reflexivity]. rewrite H. reflexivity. Qed.
   Lemma same_refl m : same m m.
   Proof. intro s. reflexivity. Qed.
   Lemma same_handle m m' : same m m' -> same (handle md m) (handle md m').
   Proof. intros H s. unfold handle. rewrite H. reflexivity. Qed.
+  Lemma same_handle_out m m' : same m m' -> same (handle_out md m) (handle_out md m').
+  Proof. intros H s. unfold handle_out. rewrite H. reflexivity. Qed.
+  Lemma same_fun (F F' : st -> M) : (forall s0, same (F s0) (F' s0)) -> same (fun s => F s s) (fun s => F' s s).
+  Proof. intros H s. apply (H s s). Qed.
+  Lemma same_in_sup f m m' : same m m' -> same (in_sup a f m) (in_sup b f m').
+  Proof. intros H s. unfold in_sup. apply (same_in_childb_at _ m m' (m_write a) s H). Qed.
 
   Lemma loop_guard_passes f n : linv L f -> (f_tp f * n <= L)%N -> loop_exceeded v a f n = false.
   Proof.
-    intros [Hb _] Hn. unfold loop_exceeded. rewrite (loop_limit_repaired v a Hv), HL.
+    intros (Hb & _) Hn. unfold loop_exceeded. rewrite (loop_limit_repaired v a Hv), HL.
     replace (n * f_carry f)%N with (f_carry f * n)%N by lia. rewrite fold_mul_scale. fold (bk f). rewrite Hb. lia.
   Qed.
   Lemma loop_guard_off f n : loop_exceeded v b f n = false.
@@ -502,19 +634,24 @@ Section NoFalseAlarm.
   Proof. intros HI Hn s. rewrite (loop_guard_passes f n HI Hn), loop_guard_off. reflexivity. Qed.
 
   Definition nfP (nd : node) : Prop :=
-    forall f, linv L f -> (maxprod (f_tp f) nd <= L)%N -> same (exec v md a nd f) (exec v md b nd f).
+    forall f, linv L f -> (maxprodS (f_tp f) (supflag f) nd <= L)%N -> same (exec v md a nd f) (exec v md b nd f).
   Definition nfQ (l : list node) : Prop :=
-    forall f, linv L f -> (maxprod_list (f_tp f) l <= L)%N ->
+    forall f, linv L f -> (maxprodS_list (f_tp f) (supflag f) l <= L)%N ->
     same (exec_list v md a l f) (exec_list v md b l f) /\ same (run_nodes v md a l f) (run_nodes v md b l f).
 
-  Lemma nf_block body : nfQ body -> forall f, linv L f -> (maxprod_list (f_tp f) body <= L)%N ->
-    same (block v md a body f) (block v md b body f).
-  Proof. intros H f HI Hm. unfold block. destruct (blank_list body); [apply same_in_null|]; apply H; auto. Qed.
-
-  Lemma nf_partial body : nfQ body -> forall f, linv L f -> (maxprod_list (f_tp f) body <= L)%N ->
-    same (partial v md a body f) (partial v md b body f).
+  Lemma nf_block body : nfQ body -> forall f tp sup, linv L f -> f_tp f = tp -> supflag f = sup ->
+    (maxprodS_list tp sup body <= L)%N -> same (block v md a body f) (block v md b body f).
   Proof.
-    intros H f HI Hm. unfold partial. apply same_seq; [apply same_refl|]. apply H; [apply linv_ext; exact HI|exact Hm].
+    intros H f tp sup HI <- <- Hm. unfold block. destruct (blank_list body); [|apply H; auto].
+    apply (same_fun (fun s0 => in_null (exec_list v md a body (f_freeze f (s_buf s0))))
+                    (fun s0 => in_null (exec_list v md b body (f_freeze f (s_buf s0))))).
+    intro s0. apply same_in_null. apply H; [apply linv_freeze; exact HI|exact Hm].
+  Qed.
+
+  Lemma nf_partial body : nfQ body -> forall f tp sup, linv L f -> f_tp f = tp -> supflag f = sup ->
+    (maxprodS_list tp sup body <= L)%N -> same (partial v md a body f) (partial v md b body f).
+  Proof.
+    intros H f tp sup HI <- <- Hm. unfold partial. apply same_seq; [apply same_refl|]. apply H; [apply linv_ext; exact HI|exact Hm].
   Qed.
 
   Theorem nf_exec : forall nd, nfP nd.
@@ -523,59 +660,78 @@ Section NoFalseAlarm.
     - intros t f _ _. rewrite !exec_eq. apply same_refl.
     - intros x f _ _. rewrite !exec_eq. apply same_refl.
     - intros x t f _ _. rewrite !exec_eq. apply same_refl.
-    - intros x body IH f HI Hm. rewrite maxprod_eq in Hm. rewrite !exec_eq.
-      apply same_in_child. apply nf_block; auto.
-    - intros body IH f HI Hm. rewrite maxprod_eq in Hm. rewrite !exec_eq.
-      apply same_in_child. apply nf_block; auto.
-    - intros n body IH f HI Hm. rewrite maxprod_eq in Hm. rewrite !exec_eq.
+    - intros x body IH f HI Hm. rewrite maxprodS_eq in Hm. rewrite !exec_eq.
+      apply (same_fun (fun s0 => in_child (block v md a body (f_freeze f (s_buf s0))) (fun val => m_assign v a x val))
+                      (fun s0 => in_child (block v md b body (f_freeze f (s_buf s0))) (fun val => m_assign v b x val))).
+      intro s0. apply (same_in_child _ _ (fun val => m_assign v a x val)).
+      apply (nf_block body IH _ (f_tp f) (supflag f)); [apply linv_freeze; exact HI|reflexivity|reflexivity|exact Hm].
+    - intros body IH f HI Hm. rewrite maxprodS_eq in Hm. rewrite !exec_eq.
+      apply (same_fun (fun s0 => in_child (block v md a body (f_freeze f (s_buf s0))) (m_ifchanged a))
+                      (fun s0 => in_child (block v md b body (f_freeze f (s_buf s0))) (m_ifchanged b))).
+      intro s0. apply (same_in_child _ _ (m_ifchanged a)).
+      apply (nf_block body IH _ (f_tp f) (supflag f)); [apply linv_freeze; exact HI|reflexivity|reflexivity|exact Hm].
+    - intros n body IH f HI Hm. rewrite maxprodS_eq in Hm. rewrite !exec_eq.
       destruct (n =? 0)%N eqn:En; [apply same_refl|].
       assert (Hn : (f_tp f * n <= L)%N) by lia.
       apply same_seq; [apply same_loop_guard; auto|]. apply same_seq; [apply same_refl|].
-      apply same_iter. intro k. apply nf_block; [exact IH| |simpl; lia].
-      apply (linv_for v a L Hv HL f n HI). apply loop_guard_passes; auto.
-    - intros n body IH f HI Hm. rewrite maxprod_eq in Hm. rewrite !exec_eq.
+      apply same_iter. intro k. apply (nf_block body IH _ (f_tp f * n)%N (supflag f)); [|reflexivity|reflexivity|lia].
+      apply (linv_for v a L Hv HL f n HI En). apply loop_guard_passes; auto.
+    - intros n body IH f HI Hm. rewrite maxprodS_eq in Hm. rewrite !exec_eq.
       destruct (n =? 0)%N eqn:En.
       + assert (n = 0%N) by lia. subst n. simpl.
-        apply same_seq; [apply same_loop_guard; [exact HI|lia]|]. apply same_refl.
+        apply same_seq; [apply same_loop_guard; [exact HI|destruct HI as (_ & Ht & _); lia]|]. apply same_refl.
       + assert (Hn : (f_tp f * n <= L)%N) by lia.
         apply same_seq; [apply same_loop_guard; auto|]. apply same_seq; [apply same_refl|].
         apply same_seq; [apply same_refl|]. apply same_seq; [|apply same_refl].
         apply same_iter. intro k. apply same_seq; [apply same_refl|]. apply same_seq; [|apply same_refl].
-        apply nf_block; [exact IH| |simpl; lia].
-        apply (linv_scale v a L Hv HL (f_ext f) n (linv_ext L f HI)). apply (loop_guard_passes f n HI Hn).
-    - intros body IH f HI Hm. rewrite maxprod_eq in Hm. rewrite !exec_eq.
+        apply (nf_block body IH _ (f_tp f * n)%N (supflag f)); [|reflexivity|reflexivity|lia].
+        apply (linv_scale v a L Hv HL (f_ext f) n (linv_ext L f HI) En). apply (loop_guard_passes f n HI Hn).
+    - intros body IH f HI Hm. rewrite maxprodS_eq in Hm. rewrite !exec_eq.
       apply same_seq; [apply same_refl|]. apply same_seq; [apply same_refl|]. apply same_seq; [apply same_refl|].
-      apply nf_partial; [exact IH|apply linv_ext; exact HI|exact Hm].
-    - intros n body IH f HI Hm. rewrite maxprod_eq in Hm. rewrite !exec_eq.
+      apply (nf_partial body IH _ (f_tp f) (supflag f)); [apply linv_ext; exact HI|reflexivity|reflexivity|exact Hm].
+    - intros n body IH f HI Hm. rewrite maxprodS_eq in Hm. rewrite !exec_eq.
       apply same_seq; [apply same_refl|]. apply same_seq; [apply same_refl|]. apply same_seq; [apply same_refl|].
       destruct (n =? 0)%N eqn:En.
       + assert (n = 0%N) by lia. subst n. simpl.
-        apply same_seq; [apply (same_loop_guard (f_ext f)); [apply linv_ext; exact HI|simpl; lia]|]. apply same_refl.
+        apply same_seq; [apply (same_loop_guard (f_ext f)); [apply linv_ext; exact HI|destruct HI as (_ & Ht & _); simpl; lia]|]. apply same_refl.
       + assert (Hn : (f_tp f * n <= L)%N) by lia.
         apply same_seq; [apply (same_loop_guard (f_ext f)); [apply linv_ext; exact HI|exact Hn]|].
-        apply same_iter. intro k. apply nf_partial; [exact IH| |simpl; lia].
-        apply (linv_scale v a L Hv HL (f_ext f) n (linv_ext L f HI)). apply (loop_guard_passes f n HI Hn).
-    - intros body IH f HI Hm. rewrite maxprod_eq in Hm. rewrite !exec_eq.
+        apply same_iter. intro k. apply (nf_partial body IH _ (f_tp f * n)%N (supflag f)); [|reflexivity|reflexivity|lia].
+        apply (linv_scale v a L Hv HL (f_ext f) n (linv_ext L f HI) En). apply (loop_guard_passes f n HI Hn).
+    - intros body IH f HI Hm. rewrite maxprodS_eq in Hm. rewrite !exec_eq.
       apply same_seq; [apply same_refl|]. apply same_seq; [apply same_refl|].
-      intro s. apply same_in_ctx. apply nf_partial; [exact IH|apply linv_copy; exact HI|exact Hm].
-    - intros n body IH f HI Hm. rewrite maxprod_eq in Hm. rewrite !exec_eq.
-      apply same_seq; [apply same_refl|]. apply same_seq; [apply same_refl|]. cbv zeta.
-      intro s. set (fc := f_copy f (sum_sizes (s_locals s))).
-      assert (HIc : linv L fc) by (apply linv_copy; exact HI).
+      apply same_in_ctx. apply (nf_partial body IH _ (f_tp f) false); [apply linv_copy; exact HI|reflexivity|reflexivity|exact Hm].
+    - intros n body IH f HI Hm. rewrite maxprodS_eq in Hm. rewrite !exec_eq.
+      apply same_seq; [apply same_refl|]. apply same_seq; [apply same_refl|].
+      assert (HIc : linv L (f_copy f)) by (apply linv_copy; exact HI).
       destruct (n =? 0)%N eqn:En.
       + assert (n = 0%N) by lia. subst n. simpl.
-        apply same_seq; [apply (same_loop_guard fc); [exact HIc|simpl; lia]|]. apply same_refl.
+        apply same_seq; [apply (same_loop_guard (f_copy f)); [exact HIc|destruct HI as (_ & Ht & _); simpl; lia]|]. apply same_refl.
       + assert (Hn : (f_tp f * n <= L)%N) by lia.
-        apply same_seq; [apply (same_loop_guard fc); [exact HIc|exact Hn]|].
-        assert (Hp : same (partial v md a body (f_scale v fc n)) (partial v md b body (f_scale v fc n))).
-        { apply nf_partial; [exact IH| |simpl; lia].
-          apply (linv_scale v a L Hv HL fc n HIc). apply (loop_guard_passes fc n HIc Hn). }
+        apply same_seq; [apply (same_loop_guard (f_copy f)); [exact HIc|exact Hn]|].
+        assert (Hp : same (partial v md a body (f_scale v (f_copy f) n)) (partial v md b body (f_scale v (f_copy f) n))).
+        { apply (nf_partial body IH _ (f_tp f * n)%N false); [|reflexivity|reflexivity|lia].
+          apply (linv_scale v a L Hv HL (f_copy f) n HIc En). apply (loop_guard_passes (f_copy f) n HIc Hn). }
         destruct (v_item v).
         * apply same_iter. intro k. apply same_in_ctx. exact Hp.
         * apply same_in_ctx. apply same_iter. intro k. exact Hp.
-    - intros body IH f HI Hm. rewrite maxprod_eq in Hm. rewrite !exec_eq.
+    - intros body IH f HI Hm. rewrite maxprodS_eq in Hm. rewrite !exec_eq.
       apply same_seq; [apply same_refl|].
-      intro s. apply same_in_ctx. apply nf_block; [exact IH|apply linv_copy; exact HI|exact Hm].
+      apply same_in_ctx. apply (nf_block body IH _ (f_tp f) false); [apply linv_call; exact HI|reflexivity|reflexivity|exact Hm].
+    - (* Block *) intros body IH f HI Hm. rewrite maxprodS_eq in Hm. rewrite !exec_eq.
+      apply same_seq; [apply same_refl|]. apply same_seq; [apply same_refl|].
+      apply same_in_blk. apply (nf_block body IH _ (f_tp f) true); [apply linv_blk; exact HI|reflexivity|reflexivity|exact Hm].
+    - (* BlockD *) intros body IH f HI Hm. rewrite maxprodS_eq in Hm. rewrite !exec_eq.
+      apply same_seq; [apply same_refl|]. apply same_seq; [apply same_refl|].
+      apply (nf_block body IH _ (f_tp f) false); [apply linv_sup_set; [apply linv_ext; exact HI|left; reflexivity]|reflexivity|reflexivity|exact Hm].
+    - (* Super *) intros body IH f HI Hm. rewrite maxprodS_eq in Hm. rewrite !exec_eq. unfold supflag in Hm.
+      destruct (f_sup f) as [| |bf] eqn:Es.
+      + apply same_refl.
+      + apply same_in_sup. apply same_seq; [apply same_refl|].
+        apply (nf_block body IH _ (f_tp f) true); [apply linv_sup_set; [apply linv_ext; exact HI|right; reflexivity]|reflexivity|reflexivity|exact Hm].
+      + apply same_in_sup. apply same_in_base. apply same_seq; [apply same_refl|].
+        apply (nf_block body IH _ (f_tp f) true); [apply linv_ext; apply (linv_base v L Hv f bf HI Es)|reflexivity|reflexivity|exact Hm].
+    - (* SuperU *) intros f _ _. rewrite !exec_eq. apply same_refl.
     - intros f _ _. split; apply same_refl.
     - intros x r IHx IHr f HI Hm. simpl in Hm. split.
       + rewrite !exec_list_cons. apply same_seq; [apply IHx; [exact HI|lia]|apply IHr; [exact HI|lia]].
@@ -590,14 +746,18 @@ Section NoFalseAlarm.
     - rewrite !run_nodes_cons. apply same_seq; [apply same_handle; apply nf_exec; [exact HI|lia]|apply IH; [exact HI|lia]].
   Qed.
 
-  Theorem run_no_false_alarm main sizes :
+  Theorem run_no_false_alarm chain main glob sizes :
     (1 <= L)%N -> (maxprod_list 1 main <= L)%N ->
-    run_prog v md a main sizes = run_prog v md b main sizes.
+    run_prog v md a chain main glob sizes = run_prog v md b chain main glob sizes.
   Proof.
-    intros H1 Hm. unfold run_prog.
-    change (nest_guard md b main) with (nest_guard md a main).
-    destruct (nest_guard md a main (st0 sizes)) as [s1|e s1|]; try reflexivity.
-    apply (nf_partial main (nf_exec_list main) frame0); [split; [reflexivity|exact H1]|exact Hm].
+    intros H1 Hm. unfold run_prog. destruct chain as [|d0 loaded].
+    - change (nest_guard md b main) with (nest_guard md a main).
+      destruct (nest_guard md a main (st0 glob sizes)) as [s1|e s1|]; try reflexivity.
+      apply (nf_partial main (nf_exec_list main) frame0 1%N false); [apply linv_frame0; exact H1|reflexivity|reflexivity|exact Hm].
+    - change (l_nest b) with (l_nest a).
+      destruct (nestd_guard md (d0 >? l_nest a) (st0 glob sizes)) as [s1|e s1|]; try reflexivity.
+      revert s1. apply same_seq; [apply same_refl|]. apply same_handle_out. apply same_seq; [apply same_refl|].
+      apply (nf_partial main (nf_exec_list main) (f_ext frame0) 1%N false); [apply linv_ext; apply linv_frame0; exact H1|reflexivity|reflexivity|exact Hm].
   Qed.
 End NoFalseAlarm.
 
@@ -619,23 +779,43 @@ Section ModeAgreement.
   Proof. intros Hb. induction n as [|n IH]; intro k; simpl; [apply okle_refl|]. apply okle_seq; auto. Qed.
   Lemma okle_in_null m m' : okle m m' -> okle (in_null m) (in_null m').
   Proof. intros H s s' H0. apply in_null_ok in H0. destruct H0 as (s1 & H1 & ->). unfold in_null. rewrite (H _ _ H1). reflexivity. Qed.
+  Lemma okle_in_childb_at cb m m' k s s' : okle m m' -> in_childb cb m k s = LOk s' -> in_childb cb m' k s = LOk s'.
+  Proof. intros H H0. apply in_childb_ok in H0. destruct H0 as (s1 & H1 & H2). unfold in_childb. rewrite (H _ _ H1). exact H2. Qed.
   Lemma okle_in_child m m' k : okle m m' -> okle (in_child m k) (in_child m' k).
-  Proof. intros H s s' H0. apply in_child_ok in H0. destruct H0 as (s1 & H1 & H2). unfold in_child. rewrite (H _ _ H1). exact H2. Qed.
+  Proof. intros H s s' H0. unfold in_child in *. apply (okle_in_childb_at _ m m' k s s' H H0). Qed.
+  Lemma okle_in_sup f m m' : okle m m' -> okle (in_sup lim f m) (in_sup lim f m').
+  Proof. intros H s s' H0. unfold in_sup in *. apply (okle_in_childb_at _ m m' _ s s' H H0). Qed.
   Lemma okle_in_ctx m m' : okle m m' -> okle (in_ctx m) (in_ctx m').
   Proof. intros H s s' H0. apply in_ctx_ok in H0. destruct H0 as (s1 & H1 & ->). unfold in_ctx. rewrite (H _ _ H1). reflexivity. Qed.
+  Lemma okle_in_blk m m' : okle m m' -> okle (in_blk m) (in_blk m').
+  Proof. intros H s s' H0. apply in_blk_ok in H0. destruct H0 as (s1 & H1 & H2). unfold in_blk. rewrite (H _ _ H1), H2. reflexivity. Qed.
+  Lemma okle_in_base m m' : okle m m' -> okle (in_base v m) (in_base v m').
+  Proof.
+    intros H s s' H0. apply in_base_ok in H0. destruct H0 as (cb & s1 & Hc & H1 & ->).
+    unfold in_base. rewrite Hc, (H _ _ H1). reflexivity.
+  Qed.
   Lemma okle_handle m m' : okle m m' -> okle (handle Strict m) (handle md m').
   Proof. intros H s s' H0. rewrite handle_strict in H0. unfold handle. rewrite (H _ _ H0). reflexivity. Qed.
+  Lemma okle_handle_out m m' : okle m m' -> okle (handle_out Strict m) (handle_out md m').
+  Proof. intros H s s' H0. rewrite handle_out_strict in H0. unfold handle_out. rewrite (H _ _ H0). reflexivity. Qed.
   Lemma okle_fun (F F' : st -> M) : (forall s0, okle (F s0) (F' s0)) -> okle (fun s => F s s) (fun s => F' s s).
   Proof. intros H s s' H0. apply (H s s s' H0). Qed.
+  Lemma okle_nestd d : okle (nestd_guard Strict d) (nestd_guard md d).
+  Proof. intros s s' H. apply nestd_guard_ok in H. destruct H as [H ->]. unfold nestd_guard. rewrite H. reflexivity. Qed.
   Lemma okle_nest body : okle (nest_guard Strict lim body) (nest_guard md lim body).
-  Proof. intros s s' H. apply nest_guard_ok in H. destruct H as [H ->]. unfold nest_guard. rewrite H. reflexivity. Qed.
+  Proof. apply okle_nestd. Qed.
 
   Definition maP (nd : node) : Prop := forall f, okle (exec v Strict lim nd f) (exec v md lim nd f).
   Definition maQ (l : list node) : Prop :=
     forall f, okle (exec_list v Strict lim l f) (exec_list v md lim l f) /\ okle (run_nodes v Strict lim l f) (run_nodes v md lim l f).
 
   Lemma ma_block body : maQ body -> forall f, okle (block v Strict lim body f) (block v md lim body f).
-  Proof. intros H f. unfold block. destruct (blank_list body); [apply okle_in_null|]; apply H. Qed.
+  Proof.
+    intros H f. unfold block. destruct (blank_list body); [|apply H].
+    apply (okle_fun (fun s0 => in_null (exec_list v Strict lim body (f_freeze f (s_buf s0))))
+                    (fun s0 => in_null (exec_list v md lim body (f_freeze f (s_buf s0))))).
+    intro s0. apply okle_in_null. apply H.
+  Qed.
   Lemma ma_partial body : maQ body -> forall f, okle (partial v Strict lim body f) (partial v md lim body f).
   Proof. intros H f. unfold partial. apply okle_seq; [apply okle_refl|apply H]. Qed.
 
@@ -645,8 +825,14 @@ Section ModeAgreement.
     - intros t f. rewrite !exec_eq. apply okle_refl.
     - intros x f. rewrite !exec_eq. apply okle_refl.
     - intros x t f. rewrite !exec_eq. apply okle_refl.
-    - intros x body IH f. rewrite !exec_eq. apply okle_in_child. apply ma_block; exact IH.
-    - intros body IH f. rewrite !exec_eq. apply okle_in_child. apply ma_block; exact IH.
+    - intros x body IH f. rewrite !exec_eq.
+      apply (okle_fun (fun s0 => in_child (block v Strict lim body (f_freeze f (s_buf s0))) (fun val => m_assign v lim x val))
+                      (fun s0 => in_child (block v md lim body (f_freeze f (s_buf s0))) (fun val => m_assign v lim x val))).
+      intro s0. apply okle_in_child. apply ma_block; exact IH.
+    - intros body IH f. rewrite !exec_eq.
+      apply (okle_fun (fun s0 => in_child (block v Strict lim body (f_freeze f (s_buf s0))) (m_ifchanged lim))
+                      (fun s0 => in_child (block v md lim body (f_freeze f (s_buf s0))) (m_ifchanged lim))).
+      intro s0. apply okle_in_child. apply ma_block; exact IH.
     - intros n body IH f. rewrite !exec_eq. destruct (n =? 0)%N; [apply okle_refl|].
       apply okle_seq; [apply okle_refl|]. apply okle_seq; [apply okle_refl|]. apply okle_iter. intro k. apply ma_block; exact IH.
     - intros n body IH f. rewrite !exec_eq.
@@ -661,27 +847,23 @@ Section ModeAgreement.
       apply okle_seq; [apply okle_refl|]. apply okle_iter. intro k. apply ma_partial; exact IH.
     - intros body IH f. rewrite !exec_eq.
       apply okle_seq; [apply okle_nest|]. apply okle_seq; [apply okle_refl|].
-      apply (okle_fun (fun s0 => in_ctx (partial v Strict lim body (f_copy f (sum_sizes (s_locals s0)))))
-                      (fun s0 => in_ctx (partial v md lim body (f_copy f (sum_sizes (s_locals s0)))))).
-      intro s0. apply okle_in_ctx. apply ma_partial; exact IH.
+      apply okle_in_ctx. apply ma_partial; exact IH.
     - intros n body IH f. rewrite !exec_eq.
-      apply okle_seq; [apply okle_nest|]. apply okle_seq; [apply okle_refl|]. cbv zeta.
+      apply okle_seq; [apply okle_nest|]. apply okle_seq; [apply okle_refl|]. apply okle_seq; [apply okle_refl|].
       destruct (v_item v).
-      + apply (okle_fun (fun s0 => seq (guard (loop_exceeded v lim (f_copy f (sum_sizes (s_locals s0))) n) XLoop)
-                                       (iter 1 (N.to_nat n) (fun _ => in_ctx (partial v Strict lim body (f_scale v (f_copy f (sum_sizes (s_locals s0))) n)))))
-                        (fun s0 => seq (guard (loop_exceeded v lim (f_copy f (sum_sizes (s_locals s0))) n) XLoop)
-                                       (iter 1 (N.to_nat n) (fun _ => in_ctx (partial v md lim body (f_scale v (f_copy f (sum_sizes (s_locals s0))) n)))))).
-        intro s0. apply okle_seq; [apply okle_refl|]. apply okle_iter. intro k. apply okle_in_ctx. apply ma_partial; exact IH.
-      + apply (okle_fun (fun s0 => seq (guard (loop_exceeded v lim (f_copy f (sum_sizes (s_locals s0))) n) XLoop)
-                                       (in_ctx (iter 1 (N.to_nat n) (fun _ => partial v Strict lim body (f_scale v (f_copy f (sum_sizes (s_locals s0))) n)))))
-                        (fun s0 => seq (guard (loop_exceeded v lim (f_copy f (sum_sizes (s_locals s0))) n) XLoop)
-                                       (in_ctx (iter 1 (N.to_nat n) (fun _ => partial v md lim body (f_scale v (f_copy f (sum_sizes (s_locals s0))) n)))))).
-        intro s0. apply okle_seq; [apply okle_refl|]. apply okle_in_ctx. apply okle_iter. intro k. apply ma_partial; exact IH.
+      + apply okle_iter. intro k. apply okle_in_ctx. apply ma_partial; exact IH.
+      + apply okle_in_ctx. apply okle_iter. intro k. apply ma_partial; exact IH.
     - intros body IH f. rewrite !exec_eq.
-      apply okle_seq; [apply okle_refl|].
-      apply (okle_fun (fun s0 => in_ctx (block v Strict lim body (f_copy f (sum_sizes (s_locals s0)))))
-                      (fun s0 => in_ctx (block v md lim body (f_copy f (sum_sizes (s_locals s0)))))).
-      intro s0. apply okle_in_ctx. apply ma_block; exact IH.
+      apply okle_seq; [apply okle_refl|]. apply okle_in_ctx. apply ma_block; exact IH.
+    - (* Block *) intros body IH f. rewrite !exec_eq.
+      apply okle_seq; [apply okle_refl|]. apply okle_seq; [apply okle_refl|]. apply okle_in_blk. apply ma_block; exact IH.
+    - (* BlockD *) intros body IH f. rewrite !exec_eq.
+      apply okle_seq; [apply okle_refl|]. apply okle_seq; [apply okle_refl|]. apply ma_block; exact IH.
+    - (* Super *) intros body IH f. rewrite !exec_eq. destruct (f_sup f) as [| |bf].
+      + apply okle_refl.
+      + apply okle_in_sup. apply okle_seq; [apply okle_refl|]. apply ma_block; exact IH.
+      + apply okle_in_sup. apply okle_in_base. apply okle_seq; [apply okle_refl|]. apply ma_block; exact IH.
+    - (* SuperU *) intro f. rewrite !exec_eq. apply okle_refl.
     - intro f. split; apply okle_refl.
     - intros x r IHx IHr f. split.
       + rewrite !exec_list_cons. apply okle_seq; [apply IHx|apply IHr].
@@ -695,11 +877,15 @@ Section ModeAgreement.
     - rewrite !run_nodes_cons. apply okle_seq; [apply okle_handle; apply ma_exec|apply IH].
   Qed.
 
-  Theorem run_mode_agreement main sizes s :
-    run_prog v Strict lim main sizes = LOk s -> run_prog v md lim main sizes = LOk s.
+  Theorem run_mode_agreement chain main glob sizes s :
+    run_prog v Strict lim chain main glob sizes = LOk s -> run_prog v md lim chain main glob sizes = LOk s.
   Proof.
-    unfold run_prog. intro H.
-    destruct (nest_guard Strict lim main (st0 sizes)) as [s1|e s1|] eqn:G; try discriminate.
-    rewrite (okle_nest main _ _ G). apply (ma_partial main (ma_exec_list main) frame0 s1 s H).
+    unfold run_prog. intro H. destruct chain as [|d0 loaded].
+    - destruct (nest_guard Strict lim main (st0 glob sizes)) as [s1|e s1|] eqn:G; try discriminate.
+      rewrite (okle_nest main _ _ G). apply (ma_partial main (ma_exec_list main) frame0 s1 s H).
+    - destruct (nestd_guard Strict (d0 >? l_nest lim) (st0 glob sizes)) as [s1|e s1|] eqn:G; try discriminate.
+      rewrite (okle_nestd _ _ _ G). revert s1 s H G. intros s1 s H _. revert s1 s H.
+      apply okle_seq; [apply okle_refl|]. apply okle_handle_out. apply okle_seq; [apply okle_nestd|].
+      apply ma_partial. apply ma_exec_list.
   Qed.
 End ModeAgreement.
